@@ -286,6 +286,45 @@ class Analysis:
         memo[func] = out
         return out
 
+    # ------------------------------------------------------ path helpers
+    def emit_nodes(self, func, opname):
+        """CFG nodes of func that directly emit op-code `opname`."""
+        out = []
+        for call, ops in self.emission_sites(func):
+            if any(op == opname for op, _ in ops):
+                for n in self.node_of_call(func, call):
+                    if n not in out:
+                        out.append(n)
+        return out
+
+    def success_return(self, func):
+        def pred(n):
+            return n.is_return and self.ret_class(func, n)[0] != 'fail'
+        return pred
+
+    def path_skipping(self, func, starts, avoid, goal=None, after=True):
+        """A CFG path from (the successors of) `starts` to a successful
+        return (or `goal` nodes) that avoids `avoid`; None when every such
+        path passes through `avoid`."""
+        cfg = self.cfg(func)
+        if after:
+            st = []
+            for s in starts:
+                st += [m for m, _l in s.succs]
+        else:
+            st = list(starts)
+        if goal is None:
+            pred = self.success_return(func)
+        else:
+            gs = set(id(g) for g in goal)
+            pred = lambda n: id(n) in gs
+        return cfg.find_path(st, pred, avoid=avoid)
+
+    def calls_nodes(self, func, *shorts):
+        """CFG nodes of func containing a call resolved to one of shorts."""
+        return self.nodes_calling(
+            func, lambda c, names: any(x in shorts for x in names))
+
     # ------------------------------------------------------- must-call
     def must_reach_call(self, func, target_pred, success_only=True):
         """Greatest-fixpoint interprocedural MUST: on every CFG path from
